@@ -86,6 +86,8 @@ def expr_text(e, prec):
     if k == "alt":
         s = " | ".join(expr_text(x, 1) for x in e[1])
         return "(" + s + ")" if prec >= 1 else s
+    if k == "grp":
+        return "(" + expr_text(e[1], 0) + ")"  # parentheses written explicitly around a single element (no meaning of their own)
     if k == "opt":
         return atom_text(e[1]) + "?"
     if k in ("star", "plus"):
@@ -245,9 +247,21 @@ class Reject(Exception):
     pass
 
 
+def ungroup(e):
+    """drop the ('grp', x) nodes: explicit parentheses only matter to the printer"""
+    if isinstance(e, tuple):
+        if e and e[0] == "grp":
+            return ungroup(e[1])
+        return tuple(ungroup(x) for x in e)
+    if isinstance(e, list):
+        return [ungroup(x) for x in e]
+    return e
+
+
 class Interp:
     def __init__(self, grammar, skipws=True, ws=None, auto_init_attributes=True, use_regexp_group=False,
                  ignore_case=False, autokwd=False, quirks=()):
+        grammar = [(r[0], r[1], ungroup(r[2])) for r in grammar]
         self.g = grammar
         self.st = Static(grammar)
         self.rules = self.st.rules
